@@ -308,6 +308,13 @@ def callLoop (q r : Nat) (req rep : List Op) (errp : List (List Op)) : CallOut :
 /-- `fNatsTransport` + `fNatsServer`: both limits are 1 MiB. -/
 def callNats (req rep : List Op) (errp : List (List Op)) : CallOut := callVia natsTransport natsMaxMessageSize req rep errp
 
+/-- `Oneway` / `Publish`: `prepareMessage`, the transport's own check, hand-over to the wire;
+there is no reply (`fHTTPTransport.Oneway` discards it). -/
+def sendOnly (t : Transport) (req : List Op) : CallOut :=
+  match requestLen t req with
+  | none => ⟨false, some .requestTooLarge⟩
+  | some _ => ⟨true, none⟩
+
 /-- One `Call` over HTTP: `fHTTPTransport` with request limit `q` and response limit
 `r` (sent as `x-frugal-payload-limit`); the handler buffers the reply unbounded and
 answers 413 when the unframed reply is larger than `r`; the client maps 413 to 101. -/
